@@ -1,0 +1,29 @@
+#pragma once
+// Verification hooks (compiled only with -DGMGPOLAR_VERIF; add-only, no effect otherwise).
+#ifdef GMGPOLAR_VERIF
+    #include <initializer_list>
+namespace gmgpolar_verif
+{
+// Grants the external verification harness read access to private members.
+struct Access;
+// Optional trace callback: operator name, level depth, buffer identities, scalar arguments.
+using TraceFn = void (*)(const char* op, int level, std::initializer_list<const void*> buffers,
+                         std::initializer_list<double> scalars);
+inline TraceFn& trace_callback()
+{
+    static TraceFn fn = nullptr;
+    return fn;
+}
+inline void trace(const char* op, int level, std::initializer_list<const void*> buffers,
+                  std::initializer_list<double> scalars = {})
+{
+    if (trace_callback())
+        trace_callback()(op, level, buffers, scalars);
+}
+} // namespace gmgpolar_verif
+    #define GMGPOLAR_VERIF_FRIEND friend struct gmgpolar_verif::Access;
+    #define GMGPOLAR_VERIF_TRACE(...) gmgpolar_verif::trace(__VA_ARGS__)
+#else
+    #define GMGPOLAR_VERIF_FRIEND
+    #define GMGPOLAR_VERIF_TRACE(...)
+#endif
